@@ -92,6 +92,21 @@ example : splitUnEqualIter [1] 0 0 0 8 false [((1 : Int), (10 : Int)), (2, 20), 
 
 end
 
+/-- **rank ids of a tensor-level split**: the rank addressed (by `rankid=`, which overrides `depth=`)
+    is replaced in place by its two halves `id.1`, `id.0`; every other rank keeps its id and its place -/
+theorem split_rank_ids (ids : List String) (k : Nat) (h : k < ids.length) :
+    splitRankIds ids k = ids.take k ++ [ids[k] ++ ".1", ids[k] ++ ".0"] ++ ids.drop (k + 1) ∧
+    (splitRankIds ids k).length = ids.length + 1 := by
+  have e : splitRankIds ids k = ids.take k ++ [ids[k] ++ ".1", ids[k] ++ ".0"] ++ ids.drop (k + 1) := by
+    unfold splitRankIds
+    rw [List.getElem?_eq_getElem h]
+  refine ⟨e, ?_⟩
+  rw [e]
+  simp only [List.length_append, List.length_take, List.length_drop, List.length_cons, List.length_nil]
+  omega
+
+example : splitRankIds ["C", "H", "W"] 1 = ["C", "H.1", "H.0", "W"] := by decide
+
 /-! ### ranks of format "U" -/
 
 section
